@@ -349,7 +349,8 @@ class _Prov:
                 for m in c.methods.values():
                     for n in walk_local(m.node):
                         if isinstance(n, ast.Assign) and any(is_self_attr(t, e.attr) for t in n.targets):
-                            out |= _Prov(self.idx, self.cls, m, self.depth).of(n.value, seen)
+                            # names are per function: only the attribute markers carry over
+                            out |= _Prov(self.idx, self.cls, m, self.depth).of(n.value, {x for x in seen if x[0] == "a"})
             return out or {UNKNOWN}
         if isinstance(e, (ast.List, ast.Tuple, ast.Set)):
             out = set()
@@ -450,7 +451,7 @@ def _provenance(ctx, res) -> None:
             node = (cfg.node_containing(c) or [None])[0]
             sanitised = False
             if node is not None and DERIVED in labels:
-                sanitised = _sanitised(idx, cls, f, cfg, node, arg, pv)
+                sanitised = _site_ok(idx, cls, f, cfg, node, arg, pv)
                 if not sanitised and cls is not None and f.name.startswith("_") and f.name != "__init__" and isinstance(arg, ast.Name) \
                         and arg.id in param_names(f.node):
                     i = param_names(f.node).index(arg.id) - 1
@@ -469,7 +470,7 @@ def _provenance(ctx, res) -> None:
                                         continue
                                     cfg2 = CFG(m2.node)
                                     n2 = (cfg2.node_containing(call) or [None])[0]
-                                    sites2.append(n2 is not None and _sanitised(idx, c2, m2, cfg2, n2, actual, pv2))
+                                    sites2.append(n2 is not None and _site_ok(idx, c2, m2, cfg2, n2, actual, pv2))
                     sanitised = bool(sites2) and all(sites2)
                 if not sanitised and cls is not None and f.name.startswith("_") and f.name != "__init__" and is_self_attr(arg):
                     # private helper: every call site in the class must be guarded
@@ -483,7 +484,7 @@ def _provenance(ctx, res) -> None:
                                 if is_self_attr(call.func, f.name):
                                     cfg2 = CFG(m2.node)
                                     n2 = (cfg2.node_containing(call) or [None])[0]
-                                    sites2.append(n2 is not None and _sanitised(idx, c2, m2, cfg2, n2, arg, _Prov(idx, c2, m2)))
+                                    sites2.append(n2 is not None and _site_ok(idx, c2, m2, cfg2, n2, arg, _Prov(idx, c2, m2)))
                     sanitised = bool(sites2) and all(sites2)
             ordinal[call_name(c)] = ordinal.get(call_name(c), 0) + 1
             key = f"{f.qualname.split('.', 2)[-1]}|{call_name(c)}#{ordinal[call_name(c)]}"
@@ -501,6 +502,30 @@ def _provenance(ctx, res) -> None:
                 res.ok("R09.5", key, where, f"target provenance {sorted(labels) or ['PROJECT']}" + (" (sanitised by a dominating test)" if sanitised else ""),
                        labels=sorted(labels))
     res.floor("R09.5", "change construction sites", n, 30)
+
+
+def _project_checked(fn_node, expr_norm: str) -> bool:
+    """`if <expr>.project != <project>: raise ...` (or `== ...` guarding the rest) on the straight-line path of fn:
+    after it, <expr> is known to belong to this project."""
+    cfg = CFG(fn_node)
+    for n in cfg.nodes:
+        if n.kind != "test" or not isinstance(n.ast, ast.Compare) or len(n.ast.ops) != 1:
+            continue
+        sides = [n.ast.left, n.ast.comparators[0]]
+        if not any(isinstance(x, ast.Attribute) and x.attr == "project" and norm(x.value) == expr_norm for x in sides):
+            continue
+        if not any((isinstance(x, ast.Name) and x.id == "project") or is_self_attr(x, "project") for x in sides):
+            continue
+        bad_label = "true" if isinstance(n.ast.ops[0], ast.NotEq) else "false" if isinstance(n.ast.ops[0], ast.Eq) else None
+        if bad_label is None:
+            continue
+        for b, lab in cfg.succ[n.id]:
+            if lab == bad_label:
+                # the foreign-project edge must only lead to raising
+                reach = cfg.reachable(b)
+                if cfg.exit.id not in reach:
+                    return True
+    return False
 
 
 def _sanitised(idx, cls, f, cfg, node, arg, pv) -> bool:
@@ -537,6 +562,95 @@ def _sanitised(idx, cls, f, cfg, node, arg, pv) -> bool:
                         other = [t.args[hp.index(r.value.comparators[0].id)] for r in rets if hp.index(r.value.comparators[0].id) < len(t.args)]
                         if other and all(clean(o) for o in other):
                             return True
+    return False
+
+
+def _project_guard(cfg, node_id, attr_norm: str) -> bool:
+    """node is only reached when <attr>.project == <this project> (Eq true edge / NotEq false edge), or under the
+    `_is_local(...)` shortcut (a function-local variable is defined in the module the caller pointed at)"""
+    for t, pol in cfg.guards(node_id):
+        if isinstance(t, ast.Compare) and len(t.ops) == 1:
+            sides = [t.left, t.comparators[0]]
+            if any(isinstance(x, ast.Attribute) and x.attr == "project" and norm(x.value) == attr_norm for x in sides) and \
+                    any((isinstance(x, ast.Name) and x.id == "project") or is_self_attr(x, "project") for x in sides):
+                if (isinstance(t.ops[0], ast.Eq) and pol) or (isinstance(t.ops[0], ast.NotEq) and not pol):
+                    return True
+        if isinstance(t, ast.Call) and call_name(t) == "_is_local" and pol:
+            return True
+    return False
+
+
+def _derived_sources_checked(idx, cls, f, arg) -> bool:
+    """Every occurrence through which a DERIVED self.<attr> can flow into `arg` (list literal element, append argument,
+    plain assignment) is guarded by a project-membership test, or the attribute is checked where it is assigned
+    (constructor-level sanitising: `if self.x.project != project: raise`)."""
+    if cls is None:
+        return False
+    pv = _Prov(idx, cls, f)
+    cfg = CFG(f.node)
+    occurrences = []  # (attr, ast node of the occurrence)
+
+    def sources(e, seen):
+        if is_self_attr(e):
+            if DERIVED in pv.of(e):
+                occurrences.append((e.attr, e))
+            return
+        if isinstance(e, ast.Name):
+            if e.id in seen:
+                return
+            seen = seen | {e.id}
+            for n in walk_local(f.node):
+                if isinstance(n, ast.Assign) and any(isinstance(t, ast.Name) and t.id == e.id for t in n.targets):
+                    sources(n.value, seen)
+                elif isinstance(n, (ast.For, ast.comprehension)) and any(isinstance(x, ast.Name) and x.id == e.id for x in ast.walk(n.target)):
+                    sources(n.iter, seen)
+                elif isinstance(n, ast.Call) and isinstance(n.func, ast.Attribute) and n.func.attr in ("append", "extend", "add") \
+                        and isinstance(n.func.value, ast.Name) and n.func.value.id == e.id:
+                    for a in n.args:
+                        sources(a, seen)
+            return
+        if isinstance(e, ast.Compare):
+            return
+        for ch in ast.iter_child_nodes(e):
+            if isinstance(ch, ast.expr):
+                sources(ch, seen)
+
+    sources(arg, set())
+    if not occurrences:
+        return False
+    for attr, occ in occurrences:
+        key = norm(ast.parse(f"self.{attr}", mode="eval").body)
+        nodes = cfg.node_containing(occ)
+        ok = bool(nodes) and all(_project_guard(cfg, n.id, key) for n in nodes)
+        if not ok and occ is arg:
+            # direct use of the attribute: accept if every flow INTO a value it is compared with is guarded (handled by the
+            # Eq sanitiser) -- here only constructor-level sanitising can help
+            ok = False
+        if not ok:
+            for q in idx.mro(cls.qualname):
+                c = idx.classes.get(q)
+                if not c:
+                    continue
+                for m in c.methods.values():
+                    assigns = any(isinstance(n, ast.Assign) and any(is_self_attr(t, attr) for t in n.targets) for n in walk_local(m.node))
+                    if assigns and _project_checked(m.node, key):
+                        ok = True
+        if not ok:
+            return False
+    return True
+
+
+def _site_ok(idx, cls, f, cfg, node, arg, pv) -> bool:
+    """direct sanitiser, or an equality with a value all of whose DERIVED sources are project-checked"""
+    if _sanitised(idx, cls, f, cfg, node, arg, pv) or _derived_sources_checked(idx, cls, f, arg):
+        return True
+    for t, pol in cfg.guards(node.id):
+        if pol and isinstance(t, ast.Compare) and len(t.ops) == 1 and isinstance(t.ops[0], ast.Eq):
+            for a, b in ((t.left, t.comparators[0]), (t.comparators[0], t.left)):
+                if norm(a) == norm(arg):
+                    labels = pv.of(b)
+                    if not (labels - {CALLER, PROJECT, DERIVED}) and _derived_sources_checked(idx, cls, f, b):
+                        return True
     return False
 
 
